@@ -25,7 +25,7 @@ RULE = ("generated services (the fixed service matrix: all four cardinalities x 
         "in order, responses equal and in order, UNIMPLEMENTED for a method that is not overridden, a handler's GRPCError "
         "status reaching the caller, and call-level timeout / deadline / metadata taking precedence over stub-level ones "
         "(all 2**6 None/set combinations). Stream lengths 0..k; request sources: list, generator, async generator, "
-        "AsyncChannel. distinct = distinct (service, method, scenario) calls.")
+        "AsyncChannel. Also: request producers that hand control back between items, a handler that refuses (GRPCError) after the first request while the caller is still sending, and a turn-based stream-stream conversation (request i+1 produced only after reply i). distinct = distinct (service, method, scenario) calls.")
 ASSUMPTIONS = [
     "grpclib.testing.ChannelFor's in-process transport is the channel; calls are issued one at a time",
     "ruff is replaced by an identity stand-in when the plugin formats its output",
